@@ -117,6 +117,45 @@ def small_dag_specs(maxn: int, canonical: bool = True) -> list[JobSpec]:
     return out
 
 
+def dag_variant_specs(maxn: int) -> list[JobSpec]:
+    """systematic variants of every canonical DAG with <= maxn tasks (thorough tiers):
+    multi   - every producer has two outputs declared ["b", "a"], consumers alternate between them
+    kw      - every second edge is a keyword edge into a parameter that also carries a static default
+    all     - every dataset requested"""
+    out = []
+    for n in range(2, maxn + 1):
+        for i, es in enumerate(canonical_dags(n)):
+            if not es:
+                continue
+            producers = sorted({a for a, _ in es})
+            outs = {p: ["b", "a"] for p in producers}
+            src_out = {e: ["b", "a"][k % 2] for k, e in enumerate(es)}
+            out.append(simple_job(f"dag{n}.{i}/multi", n, es, "sinks", outs=outs, src_out=src_out))
+            spec = simple_job(f"dag{n}.{i}/kw", n, es, "sinks", kw_edges=[e for k, e in enumerate(es) if k % 2 == 0])
+            for (a, so, b, param) in spec.edges:
+                if isinstance(param, str):
+                    spec.tasks[b]["kw"][param] = f"default-{param}"
+            out.append(spec)
+            if n <= 3:
+                out.append(simple_job(f"dag{n}.{i}/all", n, es, "all"))
+    return out
+
+
+def gpu_dag_configs(batch: int, maxn: int = 3) -> list[Config]:
+    """every canonical DAG with <= maxn tasks x each single task needing a GPU x every non-empty GPU-worker subset on 1x2 and 2x1"""
+    out = []
+    for n in range(1, maxn + 1):
+        for i, es in enumerate(canonical_dags(n)):
+            for g in range(n):
+                spec = simple_job(f"dag{n}.{i}/gpu{g}", n, es, "sinks", gpu=[g])
+                for hosts, workers in [(1, 2), (2, 1)]:
+                    slots = [(h, w) for h in range(hosts) for w in range(workers)]
+                    for r in range(1, len(slots) + 1):
+                        for sub in itertools.combinations(slots, r):
+                            out.append(Config(spec, hosts, workers, sub, batch))
+    return out
+
+
 def _explore_one(arg):
     cfg_json, max_exec, deadline, prune, ntraces = arg
     cfg = config_from_json(cfg_json)
